@@ -1,6 +1,7 @@
 import Drivers.Proto
 import St4sd.Model.Ref
 import St4sd.Model.RefSession
+import St4sd.Model.RefDir
 import St4sd.Gen.C09
 /-! Model driver for property C09 (data references).
 
@@ -91,6 +92,50 @@ def answerJson (first : Bool) : Answer → Json
   | .dri pid m => jobj [("pid", jochars pid), ("method", jchars m)]
   | .missing o => jochars o
 
+def parseKind (k : String) : Except String Kind :=
+  match k with
+  | "dir" => pure .dir
+  | "file" => pure .file
+  | "linkdir" => pure .linkDir
+  | "linkfile" => pure .linkFile
+  | "broken" => pure .broken
+  | "other" => pure .other
+  | _ => throw s!"unknown kind {k}"
+
+/-- `"listing"`: null (the path is not a directory) or `[[name, kind], ...]` in `os.listdir` order -/
+def getListing (j : Json) : Except String (Option (List Entry)) :=
+  match j.getObjVal? "listing" with
+  | .ok Json.null => pure none
+  | .ok v => do
+    let es ← v.getArr?
+    let l ← es.toList.mapM fun e => do
+      let a ← e.getArr?
+      match a.toList with
+      | [n, k] => do return ({ name := (← n.getStr?).toList, kind := (← parseKind (← k.getStr?)) } : Entry)
+      | _ => throw "listing entry must be [name, kind]"
+    return some l
+  | .error _ => pure none
+
+/-- the directory ops are pure functions of the request (no class-level table is read):
+`fromdir` = keys of `Manifest.fromDirectory`, `pkgtlf` = `top_level_folders` of the package loaded with the
+explicit manifest keys, `instlist` = names and directory flags of the instance listing, `deploy` = the
+entry a manifest key creates -/
+def dirOp (op : String) (j : Json) : Except String (Option Json) := do
+  match op with
+  | "fromdir" =>
+    let l ← getListing j
+    return some (jarr ((impliedKeys l (← getBool j "dirs") (← getBool j "files")).map jchars))
+  | "pkgtlf" =>
+    let l ← getListing j
+    return some (jarr ((packageFolders l (← getCharsList j "explicit")).map jchars))
+  | "insttlf" =>
+    let l ← getListing j
+    return some (jarr ((packageFolders ((l.map instanceListing)) []).map jchars))
+  | "deploy" =>
+    let e := deployEntry (← getChars j "key") (if (← getStr j "method") == "link" then .link else .copy)
+    return some (jarr [jchars e.name, jbool e.kind.isDir])
+  | _ => return none
+
 structure Sess where
   tables : Tables
   calls : Nat
@@ -104,6 +149,7 @@ def tablesJson (s : Sess) : Json :=
 def handle (s : Sess) (j : Json) : Except String (Sess × Json) := do
   let op ← getStr j "op"
   if op == "tables" then return (s, tablesJson s)
+  if let some a ← dirOp op j then return ({ s with calls := s.calls + 1 }, a)
   let c ← parseCall j
   let r := step s.tables c
   return ({ tables := r.1, calls := s.calls + 1 }, answerJson (op == "expand1") r.2)
